@@ -2,7 +2,9 @@
    observation.  Three case kinds:
    0  op history on a client/component over a recording transport
    1  Write calls straight on the stream logger
-   2  concurrent senders: the LTS run under the schedule read off the wire *)
+   2  concurrent senders: the LTS run under the schedule read off the wire
+   3  op history on a client over the real WebSocket transport whose TCP
+      connection starts failing every write from socket call k0 on *)
 From Coq Require Import List ZArith NArith Bool Arith.
 From XV Require Import Lib.Sx Model.Queue Model.Send.
 Import ListNotations.
@@ -55,7 +57,8 @@ Definition dec_cfg (x : sx) : option config :=
 Inductive cinput :=
 | ISeq (cfg : config) (so lo : list (nat * wres)) (ops : list op)
 | ILogger (so lo : list (nat * wres)) (ps : list str)
-| IConc (senders : list (list str)) (sched : list nat).
+| IConc (senders : list (list str)) (sched : list nat)
+| IWs (sm : bool) (k0 : nat) (ops : list op).
 
 Definition dec_input (x : sx) : option cinput :=
   match x with
@@ -67,6 +70,8 @@ Definition dec_input (x : sx) : option cinput :=
       do p <- as_list as_s ps; Some (ILogger s l p)
   | SL [SZ 2; senders; sched] =>
       do s <- as_list (as_list as_s) senders; do sc <- as_list as_nat sched; Some (IConc s sc)
+  | SL [SZ 3; sm; k0; ops] =>
+      do s <- as_b sm; do k <- as_nat k0; do o <- as_list dec_op ops; Some (IWs s k o)
   | _ => None
   end.
 
@@ -100,6 +105,10 @@ Definition run_typed (i : cinput) : sx :=
   | IConc senders sched =>
       let '(w, rest, ok) := run_sched senders sched in
       SL [strs_sx w; SB ok; SB (all_doneb rest)]
+  | IWs sm k0 ops =>
+      let so := fun k => if Nat.leb k0 k then WErr 0 else WOk in
+      let '(rs, st) := run (mkC RClient sm false CUp) so (fun _ => WOk) st0 ops in
+      SL [SL (map result_sx rs); SS (stream so 0 (s_sock st))]
   end.
 
 Definition run_C08 : sx -> sx := with_input dec_input run_typed.
